@@ -228,6 +228,62 @@ Theorem c18_swarm_stateful_history_within_budget :
 Proof. exact swarm_e_history_proof. Qed.
 Print Assumptions c18_swarm_stateful_history_within_budget.
 
+(* ---- a long-lived swarm: the object's own counter and event logs ---------- *)
+
+(* A RegenerativeSwarm is kept and reused: its _worker_counter and its two event
+   logs (shared by all runs, returned in every SwarmResult) accumulate over the
+   object's whole life.  o: ANY object state at entry -- any counter, apoptosis and
+   regeneration logs of ANY length and content (hence any number of earlier runs,
+   dozens or thousands of recorded worker deaths); e: ANY environment state.
+
+   Every one of any number of consecutive supervise() calls spawns at most
+   max_regenerations + 1 workers (numbered on from the object's counter), runs at
+   most max_steps_per_worker steps on each, succeeds only with a marker-carrying
+   output and releases no output otherwise -- whatever the object has accumulated;
+   and the call only APPENDS to the object: the counter grows by the workers
+   spawned, the apoptosis log by this call's apoptosis events (as many as the
+   result reports, at most max_regenerations + 1), the regeneration log by this
+   call's regeneration events (at most max_regenerations). *)
+Theorem c18_swarm_long_lived_object_within_budget :
+  forall (Env Hint : Type)
+         (spawn : Env -> nat -> Hint -> Env * bool) (wstepf : Env -> nat -> Env * wstep)
+         (summarize : Env -> nat -> Hint) (memlen : Env -> nat -> nat) (h0 : Hint) (thr : Q)
+         (max_regenerations max_steps : Z) (n : nat) (o : sobj) (e : Env)
+         (o1 : sobj) (r : swarm_result) (ws : list (wrece Hint)) (o2 : sobj),
+    In (o1, r, ws, o2) (swarm_obj_runs spawn wstepf summarize memlen h0 thr
+                                       max_regenerations max_steps n o e) ->
+    (s_workers r = map we_rec ws /\
+     length (s_workers r) <= Z.to_nat (max_regenerations + 1) /\
+     (forall i w, nth_error (s_workers r) i = Some w -> w_idx w = so_counter o1 + i) /\
+     (forall w, In w (s_workers r) -> w_steps w <= Z.to_nat max_steps) /\
+     (s_success r = true ->
+        exists w j out e1, In (mkW w (S j) (WSuccess out)) (s_workers r) /\
+                           snd (wstepf e1 w) = WOut out true /\ s_output r = Some out) /\
+     (s_success r = false -> s_output r = None)) /\
+    so_counter o2 = so_counter o1 + length (s_workers r) /\
+    (exists new, so_ap o2 = so_ap o1 ++ new /\ length new = s_apoptosis r /\
+                 length new <= Z.to_nat (max_regenerations + 1)) /\
+    (exists new, so_rg o2 = so_rg o1 ++ new /\ new = s_regen r /\
+                 length new <= Z.to_nat max_regenerations).
+Proof. exact swarm_obj_history_proof. Qed.
+Print Assumptions c18_swarm_long_lived_object_within_budget.
+
+(* the object's logs are ghost state as far as the runs go: forgetting them gives
+   exactly the history model above (c18_swarm_stateful_history_within_budget) --
+   no run reads what the object has accumulated *)
+Theorem c18_swarm_object_logs_are_ghost :
+  forall (Env Hint : Type)
+         (spawn : Env -> nat -> Hint -> Env * bool) (wstepf : Env -> nat -> Env * wstep)
+         (summarize : Env -> nat -> Hint) (memlen : Env -> nat -> nat) (h0 : Hint) (thr : Q)
+         (max_regenerations max_steps : Z) (n : nat) (o : sobj) (e : Env),
+    map (fun x : sobj * swarm_result * list (wrece Hint) * sobj =>
+           (so_counter (fst (fst (fst x))), snd (fst (fst x)), snd (fst x)))
+        (swarm_obj_runs spawn wstepf summarize memlen h0 thr max_regenerations max_steps n o e)
+    = swarm_runs_e spawn wstepf summarize memlen h0 thr max_regenerations max_steps
+                   n (so_counter o) e.
+Proof. exact swarm_obj_refines_proof. Qed.
+Print Assumptions c18_swarm_object_logs_are_ghost.
+
 (* the stateless model above (c18_swarm_workers_le ... c18_swarm_history_within_budget)
    is the instance "environment = step index of the current worker" of the stateful one *)
 Theorem c18_swarm_stateless_is_instance :
@@ -255,7 +311,7 @@ Print Assumptions c18_swarm_stateless_is_instance.
 Theorem c18_tool_rounds_le :
   forall (St : Type)
          (with_tools : St -> Z -> list Z -> St * presp)
-         (complete : St -> Z -> bool -> list Z -> St * option Z)
+         (complete : St -> Z -> bool -> list Z -> St * cres)
          (tool_pre : St -> Z -> St * taction)
          (tool_post : St -> Z -> option Z -> St * Z)
          (has_tools has_method : bool)
@@ -264,7 +320,7 @@ Theorem c18_tool_rounds_le :
     transcribe_with_tools with_tools complete tool_pre tool_post has_tools has_method
       d s log q max_iterations auto = (s', log', t, f) ->
     local_ok max_iterations t /\
-    nested_all (fun limit _ t' => local_ok limit t') t.
+    nested_all (fun limit _ t' _ => local_ok limit t') t.
 Proof. exact tool_rounds_le_proof. Qed.
 Print Assumptions c18_tool_rounds_le.
 
@@ -273,7 +329,7 @@ Print Assumptions c18_tool_rounds_le.
 Theorem c18_tool_history_within_budget :
   forall (St : Type)
          (with_tools : St -> Z -> list Z -> St * presp)
-         (complete : St -> Z -> bool -> list Z -> St * option Z)
+         (complete : St -> Z -> bool -> list Z -> St * cres)
          (tool_pre : St -> Z -> St * taction)
          (tool_post : St -> Z -> option Z -> St * Z)
          (has_tools has_method : bool)
@@ -281,9 +337,34 @@ Theorem c18_tool_history_within_budget :
          (rs : list tcall) (logf : list Z),
     run_calls with_tools complete tool_pre tool_post has_tools has_method d s log q calls = (rs, logf) ->
     Forall (fun c => local_ok (c_limit c) (c_trace c) /\
-                     nested_all (fun limit _ t' => local_ok limit t') (c_trace c)) rs.
+                     nested_all (fun limit _ t' _ => local_ok limit t') (c_trace c)) rs.
 Proof. exact tool_history_proof. Qed.
 Print Assumptions c18_tool_history_within_budget.
+
+(* The provider's exceptions carry their CLASS (the library's NucleusError family,
+   builtins, foreign classes; transient or permanent -- the provider is an
+   arbitrary state machine, so it may fail once in the middle of a conversation
+   and go on requesting tools afterwards).  Whatever the class: an activation --
+   outermost or nested, in any call of any history on one nucleus -- that ends
+   with an exception of class x did so because the LAST thing it did was a
+   provider invocation that raised x.  Together with c18_tool_history_within_budget
+   (the failed invocation is inside the activation's own budget) this says a
+   provider failure is neither swallowed, nor converted, nor answered by starting
+   the conversation again with a fresh budget. *)
+Theorem c18_tool_exception_is_the_providers_own :
+  forall (St : Type)
+         (with_tools : St -> Z -> list Z -> St * presp)
+         (complete : St -> Z -> bool -> list Z -> St * cres)
+         (tool_pre : St -> Z -> St * taction)
+         (tool_post : St -> Z -> option Z -> St * Z)
+         (has_tools has_method : bool)
+         (calls : list (Z * bool)) (d : nat) (s : St) (log : list Z) (q : Z)
+         (rs : list tcall) (logf : list Z),
+    run_calls with_tools complete tool_pre tool_post has_tools has_method d s log q calls = (rs, logf) ->
+    Forall (fun c => raise_ok with_tools complete (c_trace c) (c_final c) /\
+                     nested_all (fun _ _ t' f' => raise_ok with_tools complete t' f') (c_trace c)) rs.
+Proof. exact tool_raise_history_proof. Qed.
+Print Assumptions c18_tool_exception_is_the_providers_own.
 
 (* "even if the provider requests tools forever": then every auto-executing
    activation, outermost or nested, runs exactly its max_iterations rounds (each
@@ -291,7 +372,7 @@ Print Assumptions c18_tool_history_within_budget.
 Theorem c18_tool_rounds_forever_exact :
   forall (St : Type)
          (with_tools : St -> Z -> list Z -> St * presp)
-         (complete : St -> Z -> bool -> list Z -> St * option Z)
+         (complete : St -> Z -> bool -> list Z -> St * cres)
          (tool_pre : St -> Z -> St * taction)
          (tool_post : St -> Z -> option Z -> St * Z)
          (has_tools has_method : bool),
@@ -301,7 +382,7 @@ Theorem c18_tool_rounds_forever_exact :
            (s' : St) (log' : list Z) (t : trace) (f : tfinal),
     transcribe_with_tools with_tools complete tool_pre tool_post has_tools has_method
       d s log q max_iterations auto = (s', log', t, f) ->
-    exact_when_auto max_iterations auto t /\ nested_all exact_when_auto t.
+    exact_when_auto max_iterations auto t /\ nested_all (fun limit auto' t' _ => exact_when_auto limit auto' t') t.
 Proof. exact tool_forever_exact_proof. Qed.
 Print Assumptions c18_tool_rounds_forever_exact.
 
@@ -312,7 +393,7 @@ Print Assumptions c18_tool_rounds_forever_exact.
 Theorem c18_tool_fuel_irrelevant :
   forall (St : Type)
          (with_tools : St -> Z -> list Z -> St * presp)
-         (complete : St -> Z -> bool -> list Z -> St * option Z)
+         (complete : St -> Z -> bool -> list Z -> St * cres)
          (tool_pre : St -> Z -> St * taction)
          (tool_post : St -> Z -> option Z -> St * Z)
          (has_tools has_method : bool)
